@@ -9,10 +9,12 @@ import (
 	"reflect"
 	"runtime"
 	"sort"
+	"strconv"
 	"strings"
 	"sync"
 	"sync/atomic"
 	"testing"
+	"time"
 
 	"github.com/nspcc-dev/neo-go/pkg/config"
 	"github.com/nspcc-dev/neo-go/pkg/core/state"
@@ -198,6 +200,52 @@ func checkPrefix(t *testing.T, run *ev.Run, h *vchain.History, cfg func(*config.
 		return &outcome{kind + ":state-differs-after-reopen:" + n, fmt.Sprintf("height %d: %s", hh, d)}
 	}
 	run.Obs("observations_compared", 1)
+	if c := rep.BC.GetConfig(); c.RemoveUntraceableBlocks && !c.KeepOnlyLatestState {
+		// a pruning node: the states of heights hh-MaxTraceableBlocks and above (GC's
+		// target for a database of height hh is hh-MaxTraceableBlocks at most, and the
+		// state of the target height itself is kept) must still be complete in the
+		// reopened database - whatever garbage collection had done before the crash
+		// MaxTraceableBlocks may be lowered by the chain itself (Echidna), and GC takes
+		// the value of the in-memory chain, which may be ahead of the database: the
+		// window demanded here is that of the lowest value between the reopened height
+		// and the last block offered before the crash.
+		mtb := int(rep.BC.GetMaxTraceableBlocks())
+		for hq := hh; hq <= accepted && hq < len(h.P.Obs); hq++ {
+			o := h.P.Obs[hq]
+			for i, name := range o.Names {
+				if name == "max_traceable_blocks" {
+					if v, err := strconv.Atoi(o.Vals[i]); err == nil && v < mtb {
+						mtb = v
+					}
+				}
+			}
+		}
+		for q := hh; q >= hh-mtb && q >= 1; q-- {
+			var n int
+			var perr any
+			func() {
+				defer func() { perr = recover() }()
+				sr, err := rep.BC.GetStateRoot(uint32(q))
+				if err != nil {
+					perr = err
+					return
+				}
+				if sr.Root.StringLE() != h.P.Obs[q].Vals[3] {
+					perr = "state root differs from the producer's"
+					return
+				}
+				rep.BC.GetStateModule().SeekStates(sr.Root, nil, func(k, v []byte) bool { n++; return true })
+			}()
+			run.Obs("retained_states_traversed_after_reopen", 1)
+			if perr != nil || n == 0 {
+				if sr, err := rep.BC.GetStateRoot(uint32(q)); err == nil {
+					v, gerr := rep.Store.Get(append([]byte{byte(storage.DataMPT)}, sr.Root.BytesBE()...))
+					perr = fmt.Sprintf("%v; root node record: %x (%v)", perr, v, gerr)
+				}
+				return &outcome{kind + ":retained-state-unreadable-after-reopen:stage=" + stage, fmt.Sprintf("reopened at %d (MaxTraceableBlocks %d): state of height %d: %v (%d items read)", hh, mtb, q, perr, n)}
+			}
+		}
+	}
 	end := len(h.P.Raw)
 	if feedMax > 0 && hh+feedMax < end {
 		end = hh + feedMax
@@ -364,9 +412,24 @@ func concurrentRun(t *testing.T, run *ev.Run, idx, nblocks int) {
 	}
 	cfg := h.Proto
 	kind := "concurrent-persist"
+	if idx%2 == 1 {
+		// a pruning node: garbage collection runs from the flushing goroutine too,
+		// with blocks being accepted between its persist and its GC step
+		cfg = func(c *config.Blockchain) {
+			h.Proto(c)
+			c.RemoveUntraceableBlocks = true
+			c.GarbageCollectionPeriod = uint32(1 + (idx+1)%3)
+		}
+		kind = "concurrent-persist-gc"
+	}
 	rep, err := vchain.OpenReplica(t, vchain.ReplicaCfg{Name: "rec", Cfg: cfg, Backend: "mem", Record: true})
 	if err != nil {
 		t.Fatal(err)
+	}
+	if kind == "concurrent-persist-gc" {
+		// a slow disk: several blocks are accepted while one flush is being written,
+		// so the GC step that follows it sees a chain ahead of the persisted one
+		rep.Store.Delay = func() { time.Sleep(3 * time.Millisecond) }
 	}
 	var offered atomic.Int64
 	var mu sync.Mutex
@@ -794,6 +857,9 @@ func TestCheck(t *testing.T) {
 	run.Assume("batch boundaries are observed, not predicted: each run enumerates the prefixes of the log it recorded")
 	run.Assume("the state-sync jump is exercised by C20's harness; here only persistence, GC, reset and page boundaries")
 	part := os.Getenv("VERIF_PART")
+	if sp := os.Getenv("VERIF_SUBPART"); sp != "" && part == "all" { // development aid
+		part = sp
+	}
 	if part == "kill" {
 		run.Assume("kill part: SIGKILL of the writing process stands for the node dying; what the operating system had accepted survives (no power loss)")
 		killPart(t, run)
@@ -812,8 +878,8 @@ func TestCheck(t *testing.T) {
 		}
 	}
 	if do("concurrent") {
-		for i := 0; i < ev.Pick(1, 3); i++ {
-			concurrentRun(t, run, 700+i, ev.Pick(600, 2500))
+		for i := 0; i < ev.Pick(2, 4); i++ {
+			concurrentRun(t, run, 700+i, ev.Pick(500, 2500))
 		}
 	}
 	if do("reset") {
